@@ -445,4 +445,83 @@ theorem sphere_merged_contains (a b : Sphere3 K) (p : V3 K) (hsq : LawfulSqrt sq
 
 example : SMem (⟨⟨0, 0, 0⟩, 1⟩ : Sphere3 ℚ) ⟨0, 1, 0⟩ ∨ SMem (⟨⟨3, 0, 0⟩, 2⟩ : Sphere3 ℚ) ⟨0, 1, 0⟩ := by left; simp [SMem]
 
+/-! ## `BoundingSphere::contains`, `intersects` -/
+
+/-- **contains** is sound: if `a.contains(b)` answers `true` (`|c_b - c_a| + r_b ≤ r_a`) and `r_b ≥ 0`, every point of `b` is a point of `a`. -/
+theorem sphere_contains_sound (a b : Sphere3 K) (p : V3 K) (hsq : LawfulSqrt sq) (hb : 0 ≤ b.radius) :
+    letI := fieldNum K sq
+    a.contains b = true → SMem b p → SMem a p := by
+  intro h hp
+  have hD := ss3 (b.center.x - a.center.x) (b.center.y - a.center.y) (b.center.z - a.center.z)
+  have hn0 := hsq.nonneg _ hD
+  have hnn := hsq.sq_mul _ hD
+  simp only [Sphere3.contains, decide_eq_true_eq] at h
+  simp only [V3.norm, V3.normSq, V3.dot, V3.sub, fieldNum_sqrt] at h
+  simp only [SMem] at hp ⊢
+  set n := sq ((b.center.x - a.center.x) * (b.center.x - a.center.x) + (b.center.y - a.center.y) * (b.center.y - a.center.y)
+    + (b.center.z - a.center.z) * (b.center.z - a.center.z)) with hn
+  have t := tri_ineq (p.x - b.center.x) (p.y - b.center.y) (p.z - b.center.z) (b.center.x - a.center.x) (b.center.y - a.center.y)
+    (b.center.z - a.center.z) b.radius n hb hn0 hp (le_of_eq hnn.symm)
+  have e : ∀ x y z : K, x - z = (x - y) + (y - z) := by intros; ring
+  rw [e p.x b.center.x a.center.x, e p.y b.center.y a.center.y, e p.z b.center.z a.center.z]
+  have : (b.radius + n) * (b.radius + n) ≤ a.radius * a.radius := by
+    have h0 : 0 ≤ b.radius + n := add_nonneg hb hn0
+    have h1 : b.radius + n ≤ a.radius := by linarith
+    nlinarith
+  exact le_trans t this
+
+/-- **intersects** is exact for non-negative radii: it answers `true` iff the two (closed) balls share a point. -/
+theorem sphere_intersects_iff (a b : Sphere3 K) (ha : 0 ≤ a.radius) (hb : 0 ≤ b.radius) :
+    letI := fieldNum K sq
+    a.intersects b = true ↔ ∃ p, SMem a p ∧ SMem b p := by
+  simp only [Sphere3.intersects, decide_eq_true_eq]
+  simp only [V3.normSq, V3.dot, V3.sub, SMem]
+  constructor
+  · intro h
+    rcases eq_or_lt_of_le (add_nonneg ha hb) with h0 | hpos
+    · -- both radii are zero, so the centres coincide
+      have hra : a.radius = 0 := by linarith
+      have hrb : b.radius = 0 := by linarith
+      rw [← h0] at h
+      have hD := ss3 (b.center.x - a.center.x) (b.center.y - a.center.y) (b.center.z - a.center.z)
+      have hz : (b.center.x - a.center.x) * (b.center.x - a.center.x) + (b.center.y - a.center.y) * (b.center.y - a.center.y)
+          + (b.center.z - a.center.z) * (b.center.z - a.center.z) = 0 := by nlinarith
+      refine ⟨b.center, ?_, ?_⟩
+      · rw [hz, hra]; norm_num
+      · rw [hrb]; norm_num
+    · -- the point dividing the segment of centres in the ratio r_a : r_b
+      set t := a.radius / (a.radius + b.radius) with ht
+      have hne : a.radius + b.radius ≠ 0 := ne_of_gt hpos
+      have ht0 : 0 ≤ t := div_nonneg ha hpos.le
+      have ht1 : 1 - t = b.radius / (a.radius + b.radius) := by rw [ht]; field_simp; ring
+      have hta : t * (a.radius + b.radius) = a.radius := by rw [ht]; field_simp
+      have htb : (1 - t) * (a.radius + b.radius) = b.radius := by rw [ht1]; field_simp
+      have h1t : 0 ≤ 1 - t := by rw [ht1]; exact div_nonneg hb hpos.le
+      refine ⟨⟨a.center.x + (b.center.x - a.center.x) * t, a.center.y + (b.center.y - a.center.y) * t,
+        a.center.z + (b.center.z - a.center.z) * t⟩, ?_, ?_⟩
+      · have : (a.center.x + (b.center.x - a.center.x) * t - a.center.x) * (a.center.x + (b.center.x - a.center.x) * t - a.center.x)
+            + (a.center.y + (b.center.y - a.center.y) * t - a.center.y) * (a.center.y + (b.center.y - a.center.y) * t - a.center.y)
+            + (a.center.z + (b.center.z - a.center.z) * t - a.center.z) * (a.center.z + (b.center.z - a.center.z) * t - a.center.z)
+            = (t * t) * ((b.center.x - a.center.x) * (b.center.x - a.center.x) + (b.center.y - a.center.y) * (b.center.y - a.center.y)
+              + (b.center.z - a.center.z) * (b.center.z - a.center.z)) := by ring
+        rw [this, ← hta]
+        nlinarith [mul_le_mul_of_nonneg_left h (mul_self_nonneg t)]
+      · have : (a.center.x + (b.center.x - a.center.x) * t - b.center.x) * (a.center.x + (b.center.x - a.center.x) * t - b.center.x)
+            + (a.center.y + (b.center.y - a.center.y) * t - b.center.y) * (a.center.y + (b.center.y - a.center.y) * t - b.center.y)
+            + (a.center.z + (b.center.z - a.center.z) * t - b.center.z) * (a.center.z + (b.center.z - a.center.z) * t - b.center.z)
+            = ((1 - t) * (1 - t)) * ((b.center.x - a.center.x) * (b.center.x - a.center.x) + (b.center.y - a.center.y) * (b.center.y - a.center.y)
+              + (b.center.z - a.center.z) * (b.center.z - a.center.z)) := by ring
+        rw [this, ← htb]
+        nlinarith [mul_le_mul_of_nonneg_left h (mul_self_nonneg (1 - t))]
+  · rintro ⟨p, hpa, hpb⟩
+    have t := tri_ineq (p.x - a.center.x) (p.y - a.center.y) (p.z - a.center.z) (b.center.x - p.x) (b.center.y - p.y) (b.center.z - p.z)
+      a.radius b.radius ha hb hpa (by
+        have e : ∀ x y : K, (x - y) * (x - y) = (y - x) * (y - x) := by intros; ring
+        rw [e b.center.x, e b.center.y, e b.center.z]; exact hpb)
+    have e : ∀ x y z : K, y - z = (x - z) + (y - x) := by intros; ring
+    rw [e p.x b.center.x a.center.x, e p.y b.center.y a.center.y, e p.z b.center.z a.center.z]
+    exact t
+
+example : (0:ℚ) ≤ (⟨⟨0, 0, 0⟩, 1⟩ : Sphere3 ℚ).radius := by norm_num
+
 end C09
